@@ -75,8 +75,9 @@ Definition add_base_impl (compat : bool) (rel base : uri) : N * uri :=
                     fix_ambiguity d in
                 set_query (query rel) d
               end in
-            fix_empty_trail_segment d in
+            d in
         set_scheme (scheme base) d in
+    let d := fix_empty_trail_segment d in
     (URI_SUCCESS, set_fragment (fragment rel) d)
   end.
 
